@@ -556,6 +556,14 @@ impl Model {
     }
 }
 
+/// Verification hook (cfg `rten_verif`): read access to the loaded graph for `crate::verif`.
+#[cfg(rten_verif)]
+impl Model {
+    pub(crate) fn verif_graph(&self) -> &Graph {
+        &self.graph
+    }
+}
+
 impl std::fmt::Debug for Model {
     fn fmt(&self, f: &mut std::fmt::Formatter<'_>) -> std::fmt::Result {
         let node_names = |ids: &[NodeId]| -> Vec<&str> {
